@@ -15,7 +15,8 @@
 //        has_value / operator bool, operator* (&, const&, &&, const&&), operator->, value_or (const&, &&),
 //        and_then (&, const&, &&, const&&), or_else (const&, &&);
 //        opt x opt (same T, and optional<int> x optional<long>, optional<NonTriv> x optional<int>): == != < <= > >=;
-//        opt x nullopt: == != (both orders), < (both orders);  opt x value, value x opt: == != < <= > >=.
+//        opt x nullopt: == != (both orders), < (both orders);  opt x value, value x opt: == != < <= > >=;
+//        the same families over optional<double> / optional<float> x optional<double> with NaN operands (exhaustive).
 //   optional<T&> exist + checked: optional(), optional(nullopt), optional(U&) [binds], copy / move ctor, operator=(nullopt),
 //        = {}, copy / move / self assignment, operator=(U&) [rebinds], emplace(U&), reset, swap member, etl::swap,
 //        has_value / operator bool, operator*, operator->, all relational forms listed above.
@@ -30,6 +31,7 @@
 #include "tracked.hpp"
 
 #include <functional>
+#include <limits>
 #include <optional>
 #include <utility>
 
@@ -658,6 +660,76 @@ struct Ref {
     }
 };
 
+// ================================================================== relational operators over partially ordered values
+// optional<double> / optional<float> with the value domain {disengaged, -1, 0, 1, 2, NaN}: for an unordered pair every
+// operator must forward to the *same* operator of the values ([optional.relops]: x <= y is *x <= *y, not !(*y < *x)).
+// Stateless: one op = one comparison family; a, b select the two operand states.
+enum FCode : std::uint32_t { F_SAME, F_MIXED, F_VALUE, F_NULLOPT, F_NCODES };
+char const* const fcode_names[] = {"optional<double> rel optional<double>", "optional<float> rel optional<double>", "optional<double> rel double", "optional<double> rel nullopt"};
+struct FloatRel {
+    static constexpr int NDOM = 6;
+    static auto dom(std::uint32_t i) -> std::optional<double>
+    {
+        switch (i % NDOM) {
+        case 0: return std::nullopt;
+        case 1: return -1.0;
+        case 2: return 0.0;
+        case 3: return 1.0;
+        case 4: return 2.0;
+        default: return std::numeric_limits<double>::quiet_NaN();
+        }
+    }
+    static auto name(std::optional<double> const& v) -> std::string
+    {
+        if (!v.has_value()) { return "nullopt"; }
+        if (*v != *v) { return "nan"; }
+        return std::to_string(static_cast<int>(*v));
+    }
+    template <typename F>
+    static auto to_etl(std::optional<double> const& v) -> etl::optional<F>
+    {
+        return v.has_value() ? etl::optional<F>(static_cast<F>(*v)) : etl::optional<F>();
+    }
+    template <typename F>
+    static auto to_std(std::optional<double> const& v) -> std::optional<F>
+    {
+        return v.has_value() ? std::optional<F>(static_cast<F>(*v)) : std::optional<F>();
+    }
+    static auto run(OpsCase const& k, int stats) -> std::string
+    {
+        for (auto const& op : k.ops) {
+            auto code = op.code % F_NCODES;
+            auto l = dom(op.a), r = dom(op.b);
+            std::string err;
+            bool unordered = (l.has_value() && *l != *l) || (r.has_value() && *r != *r);
+            switch (code) {
+            case F_SAME: err = rel_diff("optional<double> x optional<double>", rel12(to_etl<double>(l), to_etl<double>(r)), rel12(to_std<double>(l), to_std<double>(r))); break;
+            case F_MIXED: err = rel_diff("optional<float> x optional<double>", rel12(to_etl<float>(l), to_etl<double>(r)), rel12(to_std<float>(l), to_std<double>(r))); break;
+            case F_VALUE: {
+                if (!r.has_value()) { r = dom(op.b + 1); } // the plain value operand is never disengaged
+                double w = *r;
+                err      = rel_diff("optional<double> x double", rel12(to_etl<double>(l), w), rel12(to_std<double>(l), w));
+                unordered = (l.has_value() && *l != *l) || (w != w);
+                break;
+            }
+            default: {
+                auto x = to_etl<double>(l);
+                auto m = to_std<double>(l);
+                bool e[6] = {x == etl::nullopt, etl::nullopt == x, x != etl::nullopt, etl::nullopt != x, x < etl::nullopt, etl::nullopt < x};
+                bool w[6] = {m == std::nullopt, std::nullopt == m, m != std::nullopt, std::nullopt != m, m < std::nullopt, std::nullopt < m};
+                for (int i = 0; i < 6 && err.empty(); ++i) {
+                    if (e[i] != w[i]) { err = "optional<double> x nullopt: relation " + std::to_string(i) + " is " + b2s(e[i]) + ", std::optional says " + b2s(w[i]); }
+                }
+                break;
+            }
+            }
+            if (stats > 0 && unordered && l.has_value() && r.has_value()) { vf::nontrivial_count(); }
+            if (!err.empty()) { return std::string("l=") + name(l) + " r=" + name(r) + ": " + err; }
+        }
+        return "";
+    }
+};
+
 // ------------------------------------------------------------------ configuration table
 struct Config {
     char const* name;
@@ -665,6 +737,7 @@ struct Config {
     std::uint32_t ncodes, first_query;
     char const* const* names;
     bool ref;
+    bool stateless{false}; // one op = one self-contained comparison (enumerated completely, no histories)
 };
 // One source, several executables: -DC07_ONLY=<i> builds only configuration i (the registry lists one harness per
 // configuration so that they compile in parallel); configuration ids in case strings are the same in every build.
@@ -687,6 +760,7 @@ Config const configs[] = {
     {"optional<int>", C07_RUN0, NCODES, FIRST_QUERY, code_names, false},
     {"optional<NonTriv>", C07_RUN1, NCODES, FIRST_QUERY, code_names, false},
     {"optional<int&>", C07_RUN2, R_NCODES, R_FIRST_QUERY, rcode_names, true},
+    {"optional<double/float> relational incl. NaN", &FloatRel::run, F_NCODES, 0, fcode_names, false, true},
 };
 constexpr std::uint32_t nconfigs = sizeof(configs) / sizeof(configs[0]);
 
@@ -796,6 +870,24 @@ void vf_run(vf::Ctx& c)
         for (std::uint32_t ci = 0; ci < nconfigs; ++ci) {
             auto const& cfg = configs[ci];
             if (cfg.run == nullptr) { continue; }
+            if (cfg.stateless) {
+                // every (operator family, lhs state, rhs state) over {disengaged, -1, 0, 1, 2, NaN}
+                for (std::uint32_t code = 0; code < cfg.ncodes; ++code) {
+                    for (std::uint32_t a = 0; a < FloatRel::NDOM; ++a) {
+                        for (std::uint32_t b = 0; b < FloatRel::NDOM; ++b) {
+                            if (!c.mine(n++)) { continue; }
+                            OpsCase k;
+                            k.cfg = ci;
+                            k.ops.push_back(RawOp{code, a, b, 0});
+                            vf::Flight<OpsCase> fl("enum_float_relational", k);
+                            vf::eval("enum_float_relational");
+                            auto d = run_case(k, 1);
+                            if (!d.empty()) { vf::mismatch("enum_float_relational", k, d); }
+                        }
+                    }
+                }
+                continue;
+            }
             std::vector<RawOp> ops, queries;
             for (std::uint32_t code = 0; code < cfg.first_query; ++code) {
                 for (auto const& o : shapes(cfg, code)) { ops.push_back(o); }
@@ -860,7 +952,7 @@ void vf_run(vf::Ctx& c)
     // E1: random histories of <= 25 ops, every configuration
     int per_cfg = (c.thorough() ? 50000 : 3000) / std::max(1, c.nshards) + 1; // per type over all shards: quick 3k, thorough 50k
     for (std::uint32_t ci = 0; ci < nconfigs; ++ci) {
-        if (configs[ci].run == nullptr) { continue; }
+        if (configs[ci].run == nullptr || configs[ci].stateless) { continue; }
         auto gen = rc::gen::map(vf::gen_history(1, configs[ci].ncodes, 25), [ci](OpsCase k) {
             k.cfg = ci;
             return k;
